@@ -77,8 +77,10 @@ def _run(r, scratch, i):
     d = scratch.case_dir("ext4")
     troot = os.path.join(d, "t")
     home = os.path.join(d, "home")
-    spec, meta = tree.gen_dup_tree(r, n_classes=r.randrange(2, 5), max_members=4, hostile_p=0.0, n_dirs=r.randrange(0, 3),
-                                   lens=[100, 3000, 20000, 70000, 140000], decoys=r.random() < 0.5, roots=1, hardlinks=r.random() < 0.3)
+    # a fifth of the histories: two --isolate roots (several members of a group below one root)
+    nroots = 2 if r.random() < 0.2 else 1
+    spec, meta = tree.gen_dup_tree(r, n_classes=r.randrange(2, 5), max_members=4 if nroots == 1 else 6, hostile_p=0.0, n_dirs=r.randrange(0, 3),
+                                   lens=[100, 3000, 20000, 70000, 140000], decoys=r.random() < 0.5, roots=nroots, hardlinks=r.random() < 0.3)
     tree.materialise(spec, troot)
     classes = [c for c in meta["classes"] if len(c["members"]) >= 2]
     if not classes:
@@ -104,7 +106,7 @@ def _run(r, scratch, i):
     # with --transform (or --no-check-size on the dedupe command) the length comparison is off and only the
     # modification time protects a changed file
     gtransform = "cat" if r.random() < 0.15 else None
-    argv = [fse(common.fclones_bin())] + gm.group_argv(dict(o, transform=gtransform), ["r0"], fmt)
+    argv = [fse(common.fclones_bin())] + gm.group_argv(dict(o, transform=gtransform, isolate=(nroots == 2)), spec["roots"], fmt)
     p = subprocess.Popen(argv, env=env, cwd=troot, stdin=subprocess.DEVNULL, stdout=subprocess.PIPE, stderr=subprocess.PIPE)
     reached = False
     if point:
